@@ -93,6 +93,16 @@ func (t *AppendOnlyTree) AddLeaf(tx dbtypes.Txer, blockNum, blockPosition uint64
 	return nil
 }
 
+// Reorg removes the roots of the reorged blocks and invalidates the cached frontier, which may describe leaves
+// that are no longer part of the tree: the next AddLeaf rebuilds it from the DB and checks the index against it.
+func (t *AppendOnlyTree) Reorg(tx dbtypes.Txer, firstReorgedBlock uint64) error {
+	if err := t.Tree.Reorg(tx, firstReorgedBlock); err != nil {
+		return err
+	}
+	t.lastIndex = -2
+	return nil
+}
+
 func (t *AppendOnlyTree) initCache(tx dbtypes.Txer) error {
 	siblings := [types.DefaultHeight]common.Hash{}
 	lastRoot, err := t.getLastRootWithTx(tx)
